@@ -12,6 +12,8 @@ PROPS = {
     "C04": ["u_basis"],
     "C18": ["u_candman"],
     "C20": ["u_pswarm"],
+    "C10": ["u_transforms"],
+    "C12": ["u_wavelet"],
 }
 COMMON_ASSUME = [
     "CBMC 6.11 and its C semantics are trusted; double is IEEE-754 binary64 round-to-nearest",
@@ -58,6 +60,12 @@ PROP_META = {
   "level_text": "pending", "level_note": "pending", "assumptions": COMMON_ASSUME, "not_decided": [],
  },
  "C04": {
+  "level_text": "pending", "level_note": "pending", "assumptions": COMMON_ASSUME, "not_decided": [],
+ },
+ "C10": {
+  "level_text": "pending", "level_note": "pending", "assumptions": COMMON_ASSUME, "not_decided": [],
+ },
+ "C12": {
   "level_text": "pending", "level_note": "pending", "assumptions": COMMON_ASSUME, "not_decided": [],
  },
 }
